@@ -43,8 +43,10 @@ def abstract_token(I, tag='tok'):
     return tok
 
 
-def concrete_token(I, type_name, content=''):
+def concrete_token(I, type_name, content=None):
     tt = TT(I)
+    if content is None:     # a token of a class that carries text spells ANY text of that class
+        content = I.fresh('str', 'token_text') if type_name in ('LITERAL_STRING', 'NAME', 'NUMBER', 'TIME_PATTERN', 'ERROR') else ''
     tokcls = I.load_module('bardolph.parser.token').ns['Token']
     return PyObj(tokcls, {'_token_type': tt.members[type_name], '_content': content, '_line_number': I.fresh('int', 'line'),
                           '_file_name': ''})
@@ -210,7 +212,10 @@ def install(I):
         val = I_.ghost.get('pattern_validity', {})
         for x in I_.read_items(p.attrs['_code_gen'].attrs['_code']):
             if isinstance(x, PyObj) and x.cls.name == 'Instruction' and getattr(x.attrs['op_code'], 'name', '') == 'TIME_PATTERN':
-                if val.get(id(x.attrs['param1']), True) is False:
+                v = x.attrs['param1']
+                if not (isinstance(v, PyObj) and v.cls.name == 'TimePattern'):
+                    return False        # a number, a string, None...: the VM could not wait for it
+                if val.get(id(v), True) is False:
                     return False
         return True
     fn('all_patterns_valid', all_patterns_valid)
